@@ -495,7 +495,8 @@ SEED_OPS = [
     ("path_call_root", "f().substring.call(g(), 1)"), ("static_path", "o.x.substring.call(b, 1)"),
     ("seq_in_tpl", "`${a, b}`"), ("pluseq_litsum", "a += 1 + 2"), ("pluseq_compound", "o.x.y += b"),
     ("unary_operand", "a + -b"), ("cond_operand", "f() + (c ? 'k' : g() + h())"), ("regex_arg", "a.replace(/x/g, b)"),
-    ("lit_spread", "a.concat(...'xy')"), ("opt_in_arg", "a?.trim(b?.trim())"), ("opt_callee", "f?.(a?.trim())"),
+    ("lit_spread", "a.concat(...'xy')"), ("require_noargs", "require() + a"), ("require_spread", "require(...a) + b"),
+    ("new_regexp_noargs", "new RegExp + a"), ("new_regexp_args", "new RegExp(a, 'a long flag-like literal') + b"), ("opt_in_arg", "a?.trim(b?.trim())"), ("opt_callee", "f?.(a?.trim())"),
 ]
 
 CONTEXTS = [
